@@ -326,6 +326,35 @@ def judgeLine (line : String) : String :=
           if res.filter (·.startsWith "@") == ends.1 then s!"OK {cls}"
           else s!"DIFF {cls} bytes-consumed-per-read model={" ".intercalate ends.1}"
       | _ => s!"SPEC {cls} {" ".intercalate (rhs.take 4)}"
+  | "decbatch" :: k :: rest =>
+    let ms := membersOf rest 64
+    let cls := s!"decbatch-{k}"
+    if ms.any (fun (bo, g) => (serialize bo g).isNone) then "OK skipped" else
+    match rhs with
+    | "late" :: res =>
+      let segs := segments (2 * ms.length + 2) res
+      if firstAre (ms.flatMap fun (_, g) => [g, g]) segs && segs.length == 2 * ms.length then s!"OK {cls}"
+      else s!"SPEC {cls} a-decoded-value-differs-when-read-after-later-Decode-calls got={" ".intercalate (rhs.take 10)}"
+    | _ => s!"SPEC {cls} {" ".intercalate (rhs.take 4)}"
+  | "cc" :: _ :: o :: gt =>
+    match geomOfToks gt with
+    | none => "BAD parse"
+    | some (g, _) =>
+      let cls := "conc-" ++ geomClass g
+      match serialize (boOf o) g with
+      | none => "OK skipped"
+      | some enc =>
+        let whenTok := rhs.getLast?.getD ""
+        match rhs with
+        | x :: h :: w :: state :: res =>
+          let segs := segments 5 res.dropLast
+          if x != "x" ++ bytesToHex enc then s!"SPEC {cls} Encode-bytes-differ-from-OGC-layout {whenTok}"
+          else if h != "h" ++ String.ofList (hexEncode enc) then s!"SPEC {cls} hex-text-differs {whenTok}"
+          else if w != "w" ++ bytesToHex enc then s!"SPEC {cls} Write-bytes-differ-from-OGC-layout {whenTok}"
+          else if state != "intact" then s!"SPEC {cls} {state} {whenTok}"
+          else if !(firstAre [g, g, g] segs && segs.length == 3) then s!"SPEC {cls} decoded-value-differs {whenTok} got={" ".intercalate (res.take 8)}"
+          else s!"OK {cls}"
+        | _ => s!"SPEC {cls} {" ".intercalate (rhs.take 6)}"
   | "wrfail" :: lim :: o :: gt =>
     match geomOfToks gt with
     | none => "BAD parse"
